@@ -546,6 +546,7 @@ class Engine:
             keys, self._kernel_states, self._model_states, tuning_infos
         )
         self._kernel_states = end_warmup_output.kernel_states
+        self._warmup_has_ended = True
 
         # add warnings for the user if there are any non-zero error-code
         for kid, ec in end_warmup_output.error_codes.items():
